@@ -135,10 +135,6 @@ def gen_set(rng: random.Random) -> str:
     i = 0
     while i < len(pts) and len(items) < k:
         if i + 1 < len(pts) and rng.random() < 0.5:
-            if pts[i] == 0x2D or pts[i + 1] == 0x2D and rng.random() < 0.5:
-                items.append(gen_set_char(rng, pts[i]))
-                i += 1
-                continue
             items.append(gen_set_char(rng, pts[i]) + "-" + gen_set_char(rng, pts[i + 1]))
             i += 2
         else:
@@ -148,7 +144,8 @@ def gen_set(rng: random.Random) -> str:
     pre = "-" if rng.random() < 0.12 else ""
     post = "-" if rng.random() < 0.12 and not pre else ""
     if pre or post:
-        items = [x for x in items if not x.startswith("\\-") and x != "\\x2d"]
+        items = [x for x in items if "\\-" not in x and "\\x2d" not in x.lower()
+                 and "\\u002d" not in x.lower()]
     return "[" + ("^" if compl else "") + pre + "".join(items) + post + "]"
 
 
@@ -265,3 +262,41 @@ def exhaustive(maxlen: int):
     for n in range(0, maxlen + 1):
         for tup in itertools.product(EXHAUSTIVE_ALPHABET, repeat=n):
             yield ["".join(tup)] if tup else [""]
+
+
+# Characters with a special role inside a character set (the keys of
+# Renderer._ESCAPING_IN_RANGE plus the caret) and the ways to write them.
+SET_SPECIALS = ["-", "^", "]", "[", "\\", "\t", "\n", "\r", "\f", "\v"]
+_SET_NAMED = {"\t": "\\t", "\n": "\\n", "\r": "\\r", "\f": "\\f", "\v": "\\v"}
+
+
+def set_special_forms(c: str) -> List[str]:
+    forms = ["\\x%02x" % ord(c)]
+    if c in _SET_NAMED:
+        forms += [_SET_NAMED[c], c]
+    else:
+        forms += ["\\" + c, c]          # the raw form is a near miss for - ] and backslash
+    return forms
+
+
+def set_boundary_cases() -> List[List[Value]]:
+    """Every special character of a character set as a single member, as the start and as
+    the end of a range, written escaped / encoded / raw, in the first, a middle and the last
+    position (and alone), in plain and complemented sets."""
+    out: List[List[Value]] = []
+    for c in SET_SPECIALS:
+        for form in set_special_forms(c):
+            members = [form, form + "-~", "\\x01-" + form, "!-" + form if ord(c) > 0x21 else "\\x02-" + form]
+            for m in members:
+                for layout in ("[%s]", "[%s\xe9\xff]", "[\xe9%s\xff]", "[\xe9\xff%s]", "x[\xe9-\xff%s]+y"):
+                    body = layout % m
+                    out.append([body])
+                    out.append([body.replace("[", "[^", 1)])
+    # dashes next to each other and next to ranges
+    for p in ["[\\--/]", "[^\\--/]", "x[\\--9]+y", "[a\\--/]", "[a-z\\--9]*", "[+\\--/x]", "[+-\\-]",
+              "[+-\\-x]", "[x+-\\-]", "[\\-]", "[\\-\\-]", "[--\\-]", "[\\---]", "[!-\\--]", "[-\\x2d]",
+              "[\\x2d-]", "[\\x2d-\\x2f]", "[a\\x2d-\\x2f]", "[\\x2d-\\x2fa]", "[-a-z]", "[a-z-]", "[-a-z-]",
+              "[^-a]", "[^a-]", "[^-]", "[\\^-~]", "[\\^-~a]", "[a\\^-~]", "[^\\^-~]", "[^^-~]", "[a^-~]",
+              "[\\]-~]", "[\\]-~a]", "[a\\]-~]", "[!-\\]]", "[\\[-\\]]", "[\\\\-\\]]", "[\\t-\\r]"]:
+        out.append([p])
+    return out
